@@ -72,3 +72,34 @@ func vAssertSetValue(lit []byte, d *decimal, id string) {
 		vFailures = append(vFailures, id)
 	}
 }
+
+func vAssertRoundedInt(a *decimal, n uint64, id string) {
+	v := vDecRat(a)
+	nn := new(big.Rat).SetInt(new(big.Int).SetUint64(n))
+	half := big.NewRat(1, 2)
+	lo := new(big.Rat).Sub(nn, half)
+	hi := new(big.Rat).Add(nn, half)
+	ok := true
+	if a.trunc {
+		e := a.dp - a.nd
+		ulp := new(big.Rat).SetInt(new(big.Int).Exp(big.NewInt(10), big.NewInt(int64(abs(e))), nil))
+		if e < 0 {
+			ulp.Inv(ulp)
+		}
+		top := new(big.Rat).Add(v, ulp)
+		ok = lo.Cmp(v) <= 0 && top.Cmp(hi) <= 0
+	} else {
+		cl, ch := lo.Cmp(v), v.Cmp(hi)
+		ok = cl <= 0 && ch <= 0
+		if cl == 0 || ch == 0 {
+			ok = ok && n%2 == 0
+		}
+	}
+	if !ok {
+		vFailures = append(vFailures, id)
+	}
+}
+
+func vAbsDecimal(d *decimal, lit []byte) {
+	d.set(lit)
+}
